@@ -86,6 +86,10 @@ pub struct WorldCfg {
     pub yields: bool,
     /// select! branch order is a choice point
     pub select: bool,
+    /// default scheduling policy (what choice 0 means at a scheduling point):
+    /// 0 = runnable tasks FIFO, environment events only when no task is runnable;
+    /// 1 = environment events first, then tasks FIFO; 2 = runnable tasks LIFO, then environment events
+    pub policy: u8,
 }
 
 impl Default for WorldCfg {
@@ -94,6 +98,7 @@ impl Default for WorldCfg {
             nested_env: true,
             yields: true,
             select: true,
+            policy: 0,
         }
     }
 }
@@ -118,6 +123,7 @@ thread_local! {
     static WAKES: RefCell<Vec<(u64, TaskId)>> = const { RefCell::new(Vec::new()) };
     static EPOCH: Cell<u64> = const { Cell::new(0) };
     static LAST_PANIC: RefCell<Option<String>> = const { RefCell::new(None) };
+    static AUTO_ID: Cell<u64> = const { Cell::new(0) };
     static CAPTURE_PANICS: Cell<bool> = const { Cell::new(false) };
 }
 
@@ -202,8 +208,18 @@ pub fn guarded<R>(f: impl FnOnce() -> R) -> Result<R, String> {
     }
 }
 
+/// Per-execution counter behind auto-assigned identities (reset with the world).
+pub fn next_auto_id() -> u64 {
+    AUTO_ID.with(|a| {
+        let v = a.get();
+        a.set(v + 1);
+        v
+    })
+}
+
 pub fn reset(cfg: WorldCfg) {
     teardown();
+    AUTO_ID.with(|a| a.set(0));
     EPOCH.with(|e| e.set(e.get() + 1));
     WAKES.with(|w| w.borrow_mut().clear());
     W.with(|w| {
@@ -742,9 +758,24 @@ pub fn run(horizon: u64) -> RunEnd {
     loop {
         drain_wakes();
         let menu: Vec<Ev> = with(|w| {
-            let mut m: Vec<Ev> = w.runq.iter().enumerate().map(|(pos, id)| Ev::Run(*id, pos)).collect();
-            m.extend(env_menu(w));
-            m
+            let mut tasks: Vec<Ev> = w.runq.iter().enumerate().map(|(pos, id)| Ev::Run(*id, pos)).collect();
+            let env = env_menu(w);
+            match w.cfg.policy {
+                1 => {
+                    let mut m = env;
+                    m.extend(tasks);
+                    m
+                }
+                2 => {
+                    tasks.reverse();
+                    tasks.extend(env);
+                    tasks
+                }
+                _ => {
+                    tasks.extend(env);
+                    tasks
+                }
+            }
         });
         if menu.is_empty() {
             // actors waiting for "nothing else can happen" go next; if there are none the world is quiescent
